@@ -53,6 +53,7 @@ func runC19(w *World, r *Report) {
 	c19FreshDecodeTargets(w, r)
 	r.Rule("C19-R8", "bookkeeping read-modify-write is atomic", "a value written into collectionNames.{data,excludeData,extraInfos,nameMapping} that derives from a read of the same table was read in the same function under the same lock span as the write (no snapshot taken earlier is written back)", 4)
 	c19AtomicRMW(w, r, "C19-R8")
+	c19RegisteredBeforeStart(w, r, "C19-R9")
 	r.Rule("C19-R6", "task id validated before use as a key segment", "validCreateRequest rejects a task id containing '/' (and the relative segments) with an error", 1)
 
 	hr := w.Func(pkgServer, "CDCServer", "handleRequest")
@@ -270,6 +271,7 @@ func runC19(w *World, r *Report) {
 	} else {
 		// sources that must be tested for '.'
 		want := map[string]bool{"collection names (checkCollectionInfos)": false, "database keys of db_collections": false, "name mapping databases and collections": false}
+		wantMap := map[string]bool{"name mapping: source database": false, "name mapping: target database": false, "name mapping: source collections (keys of collection_mapping)": false, "name mapping: target collections (values of collection_mapping)": false}
 		dotTests := func(fn *ssa.Function) []*ssa.Call {
 			var out []*ssa.Call
 			eachInstr(fn, func(in ssa.Instruction) {
@@ -304,7 +306,42 @@ func runC19(w *World, r *Report) {
 				if strings.Contains(ap, ".NameMapping") {
 					want["name mapping databases and collections"] = true
 				}
+				// each of the four name sources of a mapping entry
+				if strings.HasSuffix(ap, ".SourceDB") {
+					wantMap["name mapping: source database"] = true
+				}
+				if strings.HasSuffix(ap, ".TargetDB") {
+					wantMap["name mapping: target database"] = true
+				}
+				switch x := v.(type) {
+				case *ssa.Extract:
+					if nx, isNext := x.Tuple.(*ssa.Next); isNext && !nx.IsString {
+						if rg, isR := nx.Iter.(*ssa.Range); isR && strings.Contains(w.accessPath(rg.X), ".CollectionMapping") {
+							if x.Index == 1 {
+								wantMap["name mapping: source collections (keys of collection_mapping)"] = true
+							}
+							if x.Index == 2 {
+								wantMap["name mapping: target collections (values of collection_mapping)"] = true
+							}
+						}
+					}
+				case *ssa.Call:
+					if cs := callSym(x.Common()); len(x.Call.Args) > 0 && strings.Contains(w.accessPath(x.Call.Args[0]), ".CollectionMapping") {
+						switch {
+						case strings.HasPrefix(cs.name, "Keys"):
+							wantMap["name mapping: source collections (keys of collection_mapping)"] = true
+						case strings.HasPrefix(cs.name, "Values"):
+							wantMap["name mapping: target collections (values of collection_mapping)"] = true
+						case strings.HasPrefix(cs.name, "Entries") || strings.HasPrefix(cs.name, "ToPairs"):
+							wantMap["name mapping: source collections (keys of collection_mapping)"] = true
+							wantMap["name mapping: target collections (values of collection_mapping)"] = true
+						}
+					}
+				}
 			}
+		}
+		for _, k := range sortedKeys(wantMap) {
+			r.Check(wantMap[k], "C19-R3", "validCreateRequest | rejects '.' in "+k, vr.Pos(), "tested with an error return", "a '.' in this part of a name-mapping entry is not rejected: the name reaches util.GetCollectionNameFromFull (duplicate check / name resolution), which panics in the create handler, and the client gets no JSON answer")
 		}
 		if cci := w.Func(pkgServer, "MetaCDC", "checkCollectionInfos"); cci != nil {
 			for _, c := range dotTests(cci) {
@@ -706,5 +743,44 @@ func c19AtomicRMW(w *World, r *Report, rule string) {
 	}
 	if n < 3 {
 		r.Fail(rule, "read-modify-write census", 0, fmt.Sprintf("only %d read-modify-write updates of the bookkeeping found (3 confirmed)", n))
+	}
+}
+
+// c19RegisteredBeforeStart: Create's failure path removes a task that could not be started with (*MetaCDC).delete, which
+// refuses a task it does not find in cdcTasks.data. The persisted record and checkpoints of a failed create are
+// therefore only removed when the in-memory registration precedes the start.
+func c19RegisteredBeforeStart(w *World, r *Report, id string) {
+	r.Rule(id, "a created task is registered in memory before it is started", "in Create the store into cdcTasks.data[task id] dominates the startInternal call (the clean-up of a failed start, (*MetaCDC).delete, only removes a task it finds there)", 1)
+	cr := w.Func(pkgServer, "MetaCDC", "Create")
+	if cr == nil {
+		r.Undecided(id, "(*MetaCDC).Create", 0, "anchor not found")
+		return
+	}
+	var starts []*ssa.Call
+	var regs []*ssa.MapUpdate
+	eachInstr(cr, func(in ssa.Instruction) {
+		switch x := in.(type) {
+		case *ssa.Call:
+			if s := callSym(x.Common()); s.recv == "MetaCDC" && s.name == "startInternal" {
+				starts = append(starts, x)
+			}
+		case *ssa.MapUpdate:
+			if strings.HasSuffix(strings.TrimSuffix(w.accessPath(x.Map), "[]"), ".cdcTasks.data") {
+				regs = append(regs, x)
+			}
+		}
+	})
+	if len(starts) == 0 {
+		r.Undecided(id, "(*MetaCDC).Create | startInternal", cr.Pos(), "no startInternal call found in Create")
+		return
+	}
+	for i, st := range starts {
+		ok := false
+		for _, mu := range regs {
+			if instrDominates(mu, st) {
+				ok = true
+			}
+		}
+		r.Check(ok, id, fmt.Sprintf("(*MetaCDC).Create | startInternal#%d after registration", i+1), st.Pos(), "cdcTasks.data[id] is stored on every path to the start", "the task is started before (or without) being registered in cdcTasks.data: when the start fails, delete() answers 'not found', the request is rejected, but the task record and its checkpoints stay in the meta store (list shows the task, a restart resurrects it)")
 	}
 }
